@@ -1,6 +1,6 @@
 (* Link between C14 (admission) and the step-scheduler model: a graph that passes the cycle check has a rank function
    that strictly decreases along dependency edges - the premise `wf_deps` of the scheduler's progress theorems
-   (Sched/ProofsTerm.v) - so every admitted DAG satisfies it. *)
+   (Sched/ProofsTerm.v) - so every accepted DAG satisfies it. *)
 From Coq Require Import List Arith Bool Lia PeanoNat Relations.
 Import ListNotations.
 From BD.Graph Require Import Kahn KahnLemmas KahnProof.
